@@ -5,9 +5,10 @@ from .sqlgen import query_sql
 
 
 def mk_case(doc, q, mode="seq", wrapped=False, pg=False, arr=False, consts=None, sql=None, tag=None,
-            order_keys=None):
+            order_keys=None, source_rows=None):
     return {"doc": doc, "q": q, "mode": mode, "wrapped": wrapped, "pg": pg, "arr": arr, "consts": consts,
-            "sql": sql if sql is not None else query_sql(q), "tag": tag, "order_keys": order_keys}
+            "sql": sql if sql is not None else query_sql(q), "tag": tag, "order_keys": order_keys,
+            "source_rows": source_rows}
 
 
 def go_req(c):
@@ -42,6 +43,16 @@ def same_result(c, gv, lv):
         return as_multiset(gv) == as_multiset(lv)
     if mode == "sorted":   # ORDER BY with an unstable sort: same multiset and same key-tuple sequence
         return as_multiset(gv) == as_multiset(lv) and key_seq(gv, c["order_keys"]) == key_seq(lv, c["order_keys"])
+    if mode == "keyseq":   # ORDER BY + window under ties: key-tuple sequence, and rows drawn from the source
+        if key_seq(gv, c["order_keys"]) != key_seq(lv, c["order_keys"]):
+            return False
+        src = as_multiset(dec_val(enc_val(c["source_rows"])))
+        for r in as_multiset(gv):
+            if r in src:
+                src.remove(r)
+            else:
+                return False
+        return True
     raise ValueError(mode)
 
 
@@ -109,13 +120,14 @@ def run_cases(chk, cases, nontrivial=None, known_switch_ids=None, label=""):
             else:
                 rest.append((c, g, l, detail))
         mism = rest
-    for c, g, l, detail in mism[:10]:
+    mism.sort(key=lambda m: len(m[0]['sql']) + len(canon(m[0]['doc'])))
+    for c, g, l, detail in mism[:3]:
         chk.add_violation("correspondence", {
             "sql": c["sql"], "doc": c["doc"], "q": c["q"], "opts": {k: c[k] for k in ("wrapped", "pg", "arr")},
             "consts": c["consts"], "mode": c["mode"], "order_keys": c.get("order_keys"),
             "detail": detail, "impl": g, "model": l})
-    if len(mism) > 10:
-        chk.count(label + "further-mismatches", len(mism) - 10)
+    if len(mism) > 3:
+        chk.count(label + "further-mismatches", len(mism) - 3)
     if not chk.samples and cases:
         for c, g, l, v in results[:3]:
             chk.samples.append({"sql": c["sql"], "doc": c["doc"], "impl": g.get("v", g.get("r")), "verdict": v})
